@@ -5,7 +5,7 @@ import FcpModel.Reflection
 `C12_lossless` takes `wf reflTy (reflect S)` as its hypothesis: a statement about the *record*.
 Here the same class is described on the *schema*: `InReflRange S` lists, declaration by
 declaration, the bounds that the fixed-width fields of reflection.fcp impose (ids in `u32`,
-enumerators and source positions in `i32`, version in `u16`, texts 7-bit and shorter than
+enumerators and source positions in `i32`, version in `u16`, texts valid UTF-8 and shorter than
 2^32, lists shorter than 2^32), and `wf_reflect` proves that the two coincide.  The recorded
 findings `negative-field-id` and `enumerator-beyond-i32` are exactly two ways of leaving it.
 -/
@@ -25,7 +25,7 @@ def okOptMeta : Option RMeta → Bool
   | none => true
   | some m => okMeta m
 
-/-- every entry of the type chain: a 7-bit name, a size in `u32` -/
+/-- every entry of the type chain: a text name, a size in `u32` -/
 def okChain : RTy → Bool
   | .u n => okStr (117 :: natCodes n)
   | .i n => okStr (105 :: natCodes n)
@@ -253,7 +253,7 @@ theorem natCodes_ok (n : Nat) : (natCodes n).all (· < 128) = true ∧ (natCodes
   have := digitsAux_ok (n + 1) n [] rfl
   simpa [natCodes] using this
 
-/-- widths and array sizes below 2^32 − 2 (the real ones are at most 64), 7-bit type names -/
+/-- widths and array sizes below 2^32 − 2 (the real ones are at most 64), type names that are texts -/
 def smallTy : RTy → Bool
   | .u n => n < 2^32 - 2
   | .i n => n < 2^32 - 2
